@@ -6,3 +6,4 @@ import RelicVerif.Props.C02
 import RelicVerif.Props.C07
 import RelicVerif.Props.C14
 import RelicVerif.Props.C09
+import RelicVerif.Props.C03
